@@ -87,16 +87,382 @@ pub fn docs(out: &mut Out, rng: &mut Rng, count: usize, mutated: bool, random_sc
 
 pub fn run(out: &mut Out, which: &str, seed: u64, thorough: bool) {
     let mut rng = Rng::new(seed);
+    let k = if thorough { 10 } else { 1 };
     match which {
         "small" => {
-            let s = gen::s3();
             let mut cfgs = vec![ReaderCfg::strict()];
             let mut c = ReaderCfg::strict(); c.buffer = vec![0x82]; cfgs.push(c);
-            let _ = s;
-            small(out, if thorough { 5 } else { 4 }, &cfgs, 1, seed);
+            small(out, if thorough { 5 } else { 4 }, &cfgs, if thorough { 3 } else { 4 }, seed);
         }
-        "docs" => docs(out, &mut rng, if thorough { 3000 } else { 300 }, false, true),
-        "mutate" => docs(out, &mut rng, if thorough { 6000 } else { 500 }, true, true),
+        "docs" => docs(out, &mut rng, 300 * k, false, true),
+        "mutate" => docs(out, &mut rng, 400 * k, true, true),
+        "suffixes" => suffixes(out, &mut rng, 150 * k),
+        "enc" => enc(out, &mut rng, 150 * k),
+        "enc_nested" => enc_nested(out),
+        "buf" => buf(out, &mut rng, 250 * k),
+        "cut" => cut(out, &mut rng, 60 * k, if thorough { 400 } else { 120 }),
+        "sched" => sched(out, &mut rng, 120 * k, if thorough { 11 } else { 8 }, &[None, Some(16), Some(17), Some(18), Some(31), Some(64), Some(4096)]),
+        "sched_smallcap" => sched(out, &mut rng, 40 * k, 6, &[Some(0), Some(1), Some(2), Some(8), Some(15)]),
+        "tol" => tol(out, &mut rng, 300 * k),
+        "junk" => junk(out, &mut rng, 120 * k),
+        "total" => total(out, &mut rng, 1500 * k),
         x => panic!("unknown reader driver {x}"),
+    }
+}
+
+// =====================================================================================
+// relation drivers
+// =====================================================================================
+fn pick_schema(rng: &mut Rng, i: usize) -> Schema {
+    if i % 2 == 1 { gen::rand_schema(rng, &gen::SchemaOpts { wide_ids: i % 4 == 3, globals: i % 3 != 0, max_depth: 4 }) } else { gen::s3() }
+}
+fn small_doc(rng: &mut Rng, s: &Schema, max_tags: usize, unk: bool) -> Vec<Node> {
+    let o = DocOpts { max_tags, unk_prob: (if unk { 1 } else { 0 }, 3), widths: rng.chance(1, 4), noncanon: rng.chance(1, 5), ..Default::default() };
+    gen::rand_doc(rng, s, &o)
+}
+
+/// C07: the same tree with every (sampled) subset of its masters encoded with unknown size
+pub fn enc(out: &mut Out, rng: &mut Rng, count: usize) {
+    let mut n = 0usize;
+    for i in 0..count {
+        let s = pick_schema(rng, i);
+        let mut doc = small_doc(rng, &s, 18, false);
+        gen::clear_unknown(&mut doc);
+        let flat = gen::flat_index(&doc);
+        let masters: Vec<usize> = (0..flat.len()).filter(|k| flat[*k].is_master).collect();
+        if masters.is_empty() { continue; }
+        let known = gen::encode_doc(&doc);
+        if known.len() > 1500 { continue; }
+        begin(out, &mut n, &s, "enc", json!({"masters": masters.len()}));
+        run_reader::<DynTag>(out, "known", &known, &ReaderCfg::strict(), &[], &until_end());
+        let m = masters.len();
+        let subsets: Vec<u64> = if m <= 5 { (1..(1u64 << m)).collect() } else { let mut v: Vec<u64> = (0..24).map(|_| rng.next_u64() & ((1u64 << m.min(60)) - 1)).collect(); v.push((1u64 << m.min(60)) - 1); v };
+        let mut seen = std::collections::HashSet::new();
+        for sub in subsets {
+            let mut want = vec![false; flat.len()];
+            for (bi, mi) in masters.iter().enumerate() { if bi < 60 && (sub >> bi) & 1 == 1 { want[*mi] = true; } }
+            let mut d2 = doc.clone();
+            let marked = gen::assign_unknown(&mut d2, &s, &want);
+            if marked == 0 { continue; }
+            let bytes = gen::encode_doc(&d2);
+            if !seen.insert(bytes.clone()) { continue; }
+            run_reader::<DynTag>(out, &format!("unk:{marked}"), &bytes, &ReaderCfg::strict(), &[], &until_end());
+        }
+        out.ev(json!({"ev":"end"}));
+    }
+}
+
+/// systematic nesting for C07: unknown-size masters nested d deep, followed by an element of every enclosing level
+pub fn enc_nested(out: &mut Out) {
+    let s = Schema::parse("R:master=0x81, R/M1:master=0x82, R/M1/M2:master=0x83, R/M1/M2/M3:master=0x84, R/M1/M2/M3/M4:master=0x85, R/M1/M2/M3/M4/L5:uint=0x95, R/M1/M2/M3/L4:uint=0x94, R/M1/M2/L3:uint=0x93, R/M1/L2:uint=0x92, R/L1:uint=0x91, R2:master=0x8b, (-)/V:bin=0xec");
+    let chain = [0x81u64, 0x82, 0x83, 0x84, 0x85];
+    let leaf_at = [0x91u64, 0x92, 0x93, 0x94, 0x95]; // leaf allowed directly under chain[k]
+    let mut n = 0usize;
+    for depth in 1..=5usize {
+        for close_level in 0..=depth {           // 0: a new root follows; k: a leaf of chain[k-1] follows
+            for void_inside in [false, true] {
+                // build chain[0..depth] nested, innermost holds one leaf (and optionally a global), then the follower
+                fn nest(chain: &[u64], leaf_at: &[u64], k: usize, depth: usize, close_level: usize, void_inside: bool) -> Node {
+                    let mut kids = Vec::new();
+                    if k + 1 < depth { kids.push(nest(chain, leaf_at, k + 1, depth, close_level, void_inside)); }
+                    else { kids.push(Node::leaf(leaf_at[k], gen::Val::U(k as u64))); if void_inside { kids.push(Node::leaf(0xec, gen::Val::B(vec![1, 2]))); kids.push(Node::leaf(leaf_at[k], gen::Val::U(7))); } }
+                    if close_level == k + 1 && k + 1 < depth + 1 && !(k + 1 == depth) { kids.push(Node::leaf(leaf_at[k], gen::Val::U(99))); }
+                    Node::master(chain[k], kids)
+                }
+                let mut doc = vec![nest(&chain, &leaf_at, 0, depth, close_level, void_inside)];
+                if close_level == 0 { doc.push(Node::master(0x8b, vec![])); }
+                let known = gen::encode_doc(&doc);
+                begin(out, &mut n, &s, "enc", json!({"depth": depth, "close_level": close_level}));
+                run_reader::<DynTag>(out, "known", &known, &ReaderCfg::strict(), &[], &until_end());
+                let flat = gen::flat_index(&doc);
+                let masters: Vec<usize> = (0..flat.len()).filter(|k| flat[*k].is_master && flat[*k].id != 0x8b).collect();
+                for sub in 1..(1u64 << masters.len()) {
+                    let mut want = vec![false; flat.len()];
+                    for (bi, mi) in masters.iter().enumerate() { if (sub >> bi) & 1 == 1 { want[*mi] = true; } }
+                    let mut d2 = doc.clone();
+                    let marked = gen::assign_unknown(&mut d2, &s, &want);
+                    if marked as u32 != sub.count_ones() { continue; }   // only unambiguous encodings
+                    run_reader::<DynTag>(out, &format!("unk:{sub:b}"), &gen::encode_doc(&d2), &ReaderCfg::strict(), &[], &until_end());
+                }
+                out.ev(json!({"ev":"end"}));
+            }
+        }
+    }
+}
+
+/// C08: unbuffered run and runs with every (sampled) subset of master ids buffered
+pub fn buf(out: &mut Out, rng: &mut Rng, count: usize) {
+    let mut n = 0usize;
+    for i in 0..count {
+        let s = pick_schema(rng, i);
+        let doc = small_doc(rng, &s, 22, i % 3 == 0);
+        let mut bytes = gen::encode_doc(&doc);
+        match i % 4 { 1 => mutate(rng, &mut bytes), 2 => { let l = rng.below(bytes.len() + 1); bytes.truncate(l); } _ => {} }
+        if bytes.len() > 1500 { continue; }
+        let mut ms = Vec::new(); for d in &doc { d.masters(&mut ms); } ms.sort(); ms.dedup();
+        if ms.is_empty() { continue; }
+        let mut base = ReaderCfg::strict().with_allow(if i % 4 == 1 { rng.below(8) as u8 } else { 0 });
+        base.max = MaxCfg::Some(65536);
+        if i % 5 == 4 { base.eof_close = false; }
+        begin(out, &mut n, &s, "buf", json!({}));
+        run_reader::<DynTag>(out, "flat", &bytes, &base, &[], &until_end());
+        let subsets: Vec<u64> = if ms.len() <= 4 { (1..(1u64 << ms.len())).collect() } else { (0..12).map(|_| 1 + rng.next_u64() % ((1u64 << ms.len().min(60)) - 1)).collect() };
+        for sub in subsets {
+            let mut c = base.clone();
+            c.buffer = ms.iter().enumerate().filter(|(k, _)| *k < 60 && (sub >> k) & 1 == 1).map(|(_, m)| *m).collect();
+            run_reader::<DynTag>(out, &format!("buf:{sub:b}"), &bytes, &c, &[], &until_end());
+        }
+        out.ev(json!({"ev":"end"}));
+    }
+}
+
+fn chunkings(rng: &mut Rng, len: usize, k: usize) -> Vec<Vec<Step>> {
+    let mut v = vec![vec![], (0..len + 2).map(|_| Step::N(1)).collect::<Vec<_>>()];
+    for _ in 0..k { let mut s = Vec::new(); let mut left = len; while left > 0 { let mx = *rng.pick(&[1usize, 2, 3, 7, 16, 40, 300]); let n = 1 + rng.below(mx); s.push(Step::N(n)); left = left.saturating_sub(n); } v.push(s); }
+    v
+}
+
+/// C12: the whole valid document, then every (sampled) cut of it, under capacities and chunkings
+pub fn cut(out: &mut Out, rng: &mut Rng, count: usize, all_cuts_below: usize) {
+    let mut n = 0usize;
+    for i in 0..count {
+        let s = pick_schema(rng, i);
+        let mut doc = small_doc(rng, &s, 14, false);
+        gen::clear_unknown(&mut doc);
+        if i % 3 == 0 { let flat = gen::flat_index(&doc); let want: Vec<bool> = (0..flat.len()).map(|_| rng.chance(1, 2)).collect(); gen::assign_unknown(&mut doc, &s, &want); }
+        let bytes = gen::encode_doc(&doc);
+        if bytes.is_empty() || bytes.len() > 700 { continue; }
+        begin(out, &mut n, &s, "cut", json!({}));
+        run_reader::<DynTag>(out, "full", &bytes, &ReaderCfg::strict(), &[], &until_end());
+        let cuts: Vec<usize> = if bytes.len() <= all_cuts_below { (0..bytes.len()).collect() } else {
+            let mut v: Vec<usize> = gen::boundaries(&doc); for _ in 0..30 { v.push(rng.below(bytes.len())); } for b in gen::boundaries(&doc) { v.push(b + 1); if b > 0 { v.push(b - 1); } } v.retain(|c| *c < bytes.len()); v.sort(); v.dedup(); v };
+        for c in cuts {
+            let mut cfg = ReaderCfg::strict();
+            cfg.cap = *rng.pick(&[None, None, Some(16), Some(17), Some(64), Some(32)]);
+            let sch = chunkings(rng, c, 1);
+            let sched = sch[rng.below(sch.len())].clone();
+            run_reader::<DynTag>(out, &format!("cut:{c}"), &bytes[..c], &cfg, &sched, &until_end());
+        }
+        out.ev(json!({"ev":"end"}));
+    }
+}
+
+/// C04: reference run from a "slice" (everything delivered at once) against read schedules, capacities, pauses
+pub fn sched(out: &mut Out, rng: &mut Rng, count: usize, exhaustive_below: usize, caps: &[Option<usize>]) {
+    let mut n = 0usize;
+    for i in 0..count {
+        let s = pick_schema(rng, i);
+        let doc = small_doc(rng, &s, if i % 6 == 0 { 40 } else { 8 }, i % 3 == 0);
+        let mut bytes = gen::encode_doc(&doc);
+        match i % 5 { 1 => mutate(rng, &mut bytes), 2 => { let l = rng.below(bytes.len() + 1); bytes.truncate(l); } _ => {} }
+        if bytes.len() > 2048 { continue; }
+        let mut base = ReaderCfg::strict().with_allow(if i % 5 == 1 { rng.below(8) as u8 } else { 0 });
+        base.max = MaxCfg::Some(65536);
+        if i % 4 == 3 { let mut ms = Vec::new(); for d in &doc { d.masters(&mut ms); } base.buffer = ms.into_iter().filter(|_| rng.chance(1, 2)).collect(); }
+        let pauses = i % 2 == 0;
+        if pauses { base.eof_close = false; }
+        begin(out, &mut n, &s, "sched", json!({}));
+        run_reader::<DynTag>(out, "slice", &bytes, &base, &[], &until_end());
+        let bounds = if i % 5 == 0 || i % 5 == 3 || i % 5 == 4 { gen::boundaries(&doc) } else { vec![] };
+        let mut scheds: Vec<Vec<Step>> = Vec::new();
+        if bytes.len() <= exhaustive_below && bytes.len() >= 1 {
+            // every partition of the input into short reads
+            for mask in 0..(1u32 << (bytes.len() - 1)) {
+                let mut sc = Vec::new(); let mut run_len = 1;
+                for b in 0..bytes.len() - 1 { if (mask >> b) & 1 == 1 { sc.push(Step::N(run_len)); run_len = 1; } else { run_len += 1; } }
+                sc.push(Step::N(run_len)); scheds.push(sc);
+            }
+        } else { scheds = chunkings(rng, bytes.len(), 4); }
+        for (k, sc) in scheds.iter().enumerate() {
+            let mut c = base.clone();
+            c.cap = *rng.pick(caps);
+            let mut sc = sc.clone();
+            if pauses && !bounds.is_empty() && base.buffer.is_empty() {
+                // temporary end-of-file exactly at (a subset of) tag boundaries: split chunks there and answer Ok(0) once
+                let mut out_s = Vec::new(); let mut pos = 0usize;
+                for st in sc { if let Step::N(nb) = st { let mut left = nb; while left > 0 { let nextb = bounds.iter().copied().find(|b| *b > pos && *b < pos + left); match nextb { Some(b) => { out_s.push(Step::N(b - pos)); left -= b - pos; pos = b; if rng.chance(1, 2) { out_s.push(Step::Zero); } } None => { out_s.push(Step::N(left)); pos += left; left = 0; } } }
+                    if bounds.contains(&pos) && rng.chance(1, 2) { out_s.push(Step::Zero); } } }
+                sc = out_s;
+            }
+            run_reader::<DynTag>(out, &format!("sched:{k}"), &bytes, &c, &sc, &Calls::UntilEnd { extra: 1, max_calls: 600 });
+        }
+        out.ev(json!({"ev":"end"}));
+    }
+}
+
+/// C13: one input under all 8 tolerance sets; valid documents with one injected fault of each class
+pub fn tol(out: &mut Out, rng: &mut Rng, count: usize) {
+    let mut n = 0usize;
+    for i in 0..count {
+        let s = pick_schema(rng, i);
+        let mut doc = small_doc(rng, &s, 16, false);
+        gen::clear_unknown(&mut doc);
+        let lay = gen::layout(&doc);
+        let mut bytes = gen::encode_doc(&doc);
+        if lay.is_empty() || bytes.len() > 1200 { continue; }
+        let mut fault = json!({"class":"","off":0,"id":[]});
+        let mut limit = MaxCfg::Some(65536);
+        match i % 6 {
+            0 => { // unknown id: overwrite the id of one tag with an id of the same length that is not in the specification
+                let t = rng.pick(&lay).clone();
+                let idb = gen::id_bytes(t.id);
+                let mut used = s.ids();
+                let mut newid;
+                loop { newid = gen::rand_id(rng, &mut used, true); if gen::id_bytes(newid).len() == idb.len() { break; } }
+                let nb = gen::id_bytes(newid);
+                bytes[t.off..t.off + nb.len()].copy_from_slice(&nb);
+                fault = json!({"class":"bad_id","off":t.off,"id":idw(newid)});
+            }
+            1 => { // element outside its allowed parents: append a leaf that is not allowed under some master
+                let ms: Vec<usize> = (0..lay.len()).filter(|k| lay[*k].is_master).collect();
+                // the hierarchy is only judged once a non-global element has fixed the document position
+                if ms.is_empty() || !s.get(lay[0].id).map(|e| e.path.is_empty()).unwrap_or(false) { continue; }
+                let flat = gen::flat_index(&doc);
+                let mi = *rng.pick(&ms);
+                let mut chain: Vec<u64> = vec![flat[mi].id]; let mut p = flat[mi].parent; while let Some(x) = p { chain.insert(0, flat[x].id); p = flat[x].parent; }
+                let bad: Vec<&crate::dynspec::Entry> = s.entries.iter().filter(|e| e.ty != ebml_iterable::specs::TagDataType::Master && !gen::matches(&e.path, &chain)).collect();
+                if bad.is_empty() { continue; }
+                let e = *rng.pick(&bad);
+                let (val, _) = gen::rand_val(rng, e.ty, false, false);
+                let path = flat[mi].path.clone();
+                gen::node_mut(&mut doc, &path).kids.push(Node::leaf(e.id, val));
+                bytes = gen::encode_doc(&doc);
+                let lay2 = gen::layout(&doc);
+                // the appended leaf is the last child of master mi
+                let idx = (0..lay2.len()).filter(|k| lay2[*k].parent == Some(mi) ).last().unwrap();
+                fault = json!({"class":"hier","off":lay2[idx].off,"id":idw(e.id)});
+            }
+            2 => { // a child overrunning its known-size parent: enlarge the declared size of a binary/utf8 leaf inside a master
+                let cands: Vec<&gen::Lay> = lay.iter().filter(|t| !t.is_master && t.parent.is_some() && t.hlen - gen::id_bytes(t.id).len() == 1 && t.size < 100
+                    && matches!(s.get(t.id).map(|e| e.ty), Some(ebml_iterable::specs::TagDataType::Binary) | Some(ebml_iterable::specs::TagDataType::Utf8))).collect();
+                if cands.is_empty() { continue; }
+                let t = (*rng.pick(&cands)).clone();
+                let par = &lay[t.parent.unwrap()];
+                let room = par.off + par.hlen + par.size - (t.off + t.hlen);   // bytes from this payload start to the parent's end
+                let newsize = room + 1 + rng.below(5);
+                if newsize >= 127 { continue; }
+                bytes[t.off + t.hlen - 1] = 0x80 | newsize as u8;
+                fault = json!({"class":"oversized","off":t.off,"id":idw(t.id)});
+            }
+            3 => { // declared size above the configured limit: the first tag (document order) whose size exceeds M
+                let m = *rng.pick(&[4usize, 16, 64]);
+                if let Some(t) = lay.iter().find(|t| t.size > m) { limit = MaxCfg::Some(m); fault = json!({"class":"too_big","off":t.off,"id":idw(t.id)}); } else { continue; }
+            }
+            4 => { mutate(rng, &mut bytes); }
+            _ => {}
+        }
+        let root = !bytes.is_empty() && { let l = gen::layout(&doc); !l.is_empty() && s.get(l[0].id).map(|e| e.path.is_empty()).unwrap_or(false) && bytes[..gen::id_bytes(l[0].id).len().min(bytes.len())] == gen::id_bytes(l[0].id)[..gen::id_bytes(l[0].id).len().min(bytes.len())] };
+        begin(out, &mut n, &s, "tol", json!({"fault": fault, "root": root}));
+        for bits in 0..8u8 {
+            let mut c = ReaderCfg::strict().with_allow(bits); c.max = limit.clone();
+            run_reader::<DynTag>(out, &format!("allow:{bits}"), &bytes, &c, &[], &until_end());
+        }
+        if i % 6 == 5 { // the default limit stays in force until changed
+            for bits in [0u8, 4, 7] { let c = ReaderCfg::strict().with_allow(bits); run_reader::<DynTag>(out, &format!("allow:{bits}:default"), &bytes, &c, &[], &until_end()); }
+        }
+        out.ev(json!({"ev":"end"}));
+    }
+}
+
+/// C14: junk inserted at tag boundaries of valid known-size documents; next / try_recover / continue
+pub fn junk(out: &mut Out, rng: &mut Rng, count: usize) {
+    let mut n = 0usize;
+    for i in 0..count {
+        let s = pick_schema(rng, i);
+        let mut doc = small_doc(rng, &s, 14, false);
+        gen::clear_unknown(&mut doc);
+        let bytes = gen::encode_doc(&doc);
+        let lay = gen::layout(&doc);
+        if lay.len() < 2 || bytes.len() > 800 { continue; }
+        // bytes that can never begin a tag of this specification: one-byte ids that are not declared
+        let junk_bytes: Vec<u8> = (0x80u16..=0xfe).map(|b| b as u8).filter(|b| s.get(*b as u64).is_none()).collect();
+        for _ in 0..4 {
+            let t = rng.below(lay.len());
+            let at = lay[t].off;
+            let jn = *rng.pick(&[1usize, 1, 2, 3, 5, 8, 16]);
+            // the tag following the junk must still fit every enclosing known-size master after the shift
+            let tag_end = lay[t].off + lay[t].hlen + if lay[t].is_master { 0 } else { lay[t].size };
+            let tag_end_full = lay[t].off + lay[t].hlen + lay[t].size;
+            let mut fits = true; let mut p = lay[t].parent;
+            while let Some(x) = p { if tag_end_full + jn > lay[x].off + lay[x].hlen + lay[x].size { fits = false; } p = lay[x].parent; }
+            let _ = tag_end;
+            if !fits { continue; }
+            let mut dmg = bytes[..at].to_vec();
+            for _ in 0..jn { dmg.push(*rng.pick(&junk_bytes)); }
+            dmg.extend_from_slice(&bytes[at..]);
+            begin(out, &mut n, &s, "junk", json!({"at": at, "n": jn}));
+            run_reader::<DynTag>(out, "orig", &bytes, &ReaderCfg::strict(), &[], &until_end());
+            let mut c = ReaderCfg::strict(); if rng.chance(1, 3) { c.cap = Some(*rng.pick(&[16usize, 24, 64])); }
+            let sch = chunkings(rng, dmg.len(), 1);
+            let sc1 = sch[rng.below(sch.len())].clone();
+            run_reader::<DynTag>(out, "dmg", &dmg, &c, &sc1, &Calls::Recovering { extra: 0, max_calls: 400 });
+            out.ev(json!({"ev":"end"}));
+        }
+    }
+}
+
+/// C05: adversarial headers, random bytes, mutations; next/try_recover interleavings; injected source errors
+pub fn total(out: &mut Out, rng: &mut Rng, count: usize) {
+    let mut n = 0usize;
+    let sizes: Vec<Vec<u8>> = {
+        let mut v: Vec<Vec<u8>> = vec![vec![0x80], vec![0x81], vec![0x88], vec![0x89], vec![0xff], vec![0x40, 0x00], vec![0x7f, 0xff], vec![0x00], vec![0x01],
+            vec![0x01, 0xff, 0xff, 0xff, 0xff, 0xff, 0xff, 0xff], vec![0x01, 0xff, 0xff, 0xff, 0xff, 0xff, 0xff, 0xfe], vec![0x01, 0, 0, 0, 0, 0, 0, 0], vec![0x08, 0, 0, 0, 1], vec![0x10, 0, 0, 0x20]];
+        for w in 1..=8usize { v.push(gen::vint_w((1u64 << (7 * w)) - 1, w)); v.push(gen::vint_w((1u64 << (7 * w)) - 2, w)); v.push(gen::vint_w(0, w)); }
+        v
+    };
+    for i in 0..count {
+        let s = pick_schema(rng, i);
+        let mut bytes: Vec<u8> = match i % 5 {
+            0 => { // adversarial header sequences
+                let mut b = Vec::new();
+                for _ in 0..rng.range(1, 5) {
+                    let id = if rng.chance(3, 4) { rng.pick(&s.entries).id } else { let mut u = s.ids(); gen::rand_id(rng, &mut u, true) };
+                    b.extend(gen::id_bytes(id)); b.extend(rng.pick(&sizes).clone());
+                    if rng.chance(1, 2) { let k = rng.below(10); b.extend(rng.bytes(k)); }
+                }
+                b
+            }
+            1 => { let k = rng.below(40); rng.bytes(k) }
+            2 => { let n2 = rng.below(30); (0..n2).map(|_| *rng.pick(&SIGMA12)).collect() }
+            _ => { let d = small_doc(rng, &s, 12, true); let mut b = gen::encode_doc(&d); mutate(rng, &mut b); b }
+        };
+        bytes.truncate(1500);
+        let mut c = ReaderCfg::strict().with_allow(rng.below(8) as u8);
+        c.max = match rng.below(6) { 0 => MaxCfg::Default, 1 => MaxCfg::None, _ => MaxCfg::Some(*rng.pick(&[8usize, 64, 4096, 65536])) };
+        // never let an adversarial size within the limit request gigabytes in this driver
+        if !matches!(c.max, MaxCfg::Some(_)) && i % 5 != 4 { c.max = MaxCfg::Some(1 << 20); }
+        if matches!(c.max, MaxCfg::Default | MaxCfg::None) { c.max = MaxCfg::Some(1 << 22); }
+        if rng.chance(1, 3) { c.buffer = s.masters().into_iter().filter(|_| rng.chance(1, 2)).collect(); }
+        c.eof_close = rng.chance(3, 4);
+        c.cap = *rng.pick(&[None, None, Some(16), Some(17), Some(31), Some(64), Some(1024)]);
+        let mut sc: Vec<Step> = if rng.chance(1, 2) { vec![] } else { let ch = chunkings(rng, bytes.len(), 2); ch[rng.below(ch.len())].clone() };
+        if rng.chance(1, 4) { // one injected source error at a random read
+            let k = rng.below(sc.len() + 1);
+            let kind = *rng.pick(&[std::io::ErrorKind::TimedOut, std::io::ErrorKind::ConnectionReset, std::io::ErrorKind::Other, std::io::ErrorKind::PermissionDenied]);
+            sc.insert(k, Step::Err(kind, format!("injected-{}", rng.below(1000))));
+        }
+        let calls = match rng.below(3) {
+            0 => Calls::UntilEnd { extra: 3, max_calls: 400 },
+            1 => Calls::Recovering { extra: 2, max_calls: 400 },
+            _ => Calls::Script((0..rng.range(1, 40)).map(|_| if rng.chance(1, 4) { Call::Recover } else { Call::Next }).collect()),
+        };
+        begin(out, &mut n, &s, "single", json!({}));
+        run_reader::<DynTag>(out, "total", &bytes, &c, &sc, &calls);
+        out.ev(json!({"ev":"end"}));
+    }
+}
+
+/// mid-document starts (C06): suffixes of valid documents beginning at an inner tag
+pub fn suffixes(out: &mut Out, rng: &mut Rng, count: usize) {
+    let mut n = 0usize;
+    for i in 0..count {
+        let s = pick_schema(rng, i);
+        let doc = small_doc(rng, &s, 16, i % 3 == 0);
+        let bytes = gen::encode_doc(&doc);
+        let lay = gen::layout(&doc);
+        if lay.len() < 2 || bytes.len() > 1000 { continue; }
+        begin(out, &mut n, &s, "single", json!({}));
+        for _ in 0..3 { let t = rng.pick(&lay); run_reader::<DynTag>(out, &format!("from:{}", t.off), &bytes[t.off..], &ReaderCfg::strict(), &[], &until_end()); }
+        out.ev(json!({"ev":"end"}));
     }
 }
